@@ -410,7 +410,9 @@ def check_range_parameters(chk, prefix=""):
                              f"the combined spacing function of the {cont} contour of a region changes when only the *_range_{other.split('_')[1]} options change: one end of the region reads the range parameter of the wrong side of the separatrix (the two ends of a region must be treated alike: a region's start is the end of its mirror image)",
                              dict(equilibrium=cname, region=rname, kind=d["kind"], contour=cont, scaled_options=[k2 + "_" + other.split("_")[1] for k2 in vals], index_of_largest_change=k / 2.0, change_over_length=d_other))
                 if d_own < 1e-6:
-                    chk.tie_broken("oracle:range-parameters", f"{cname} {rname} {cont}: scaling the {own} parameters does not change the function (the metamorphic test is vacuous)")
+                    # resetNonorthogonalOptions(new settings) followed by combineSfuncs: the REQUESTED ranges are the new ones
+                    chk.fail(f"{prefix}region:reset-options-ignored:{cont}", f"after resetNonorthogonalOptions with the {own.split('_')[1]} range options scaled by 3 the combined spacing function of the {cont} contour is unchanged: the region keeps using the spacing parameters of its earlier options",
+                             dict(equilibrium=cname, region=rname, kind=d["kind"], contour=cont, scaled_options=[k2 + "_" + own.split("_")[1] for k2 in vals], change_over_length=d_own))
     return n
 
 
